@@ -118,6 +118,17 @@ CLAIMED = {
         note="Trusted: Coq kernel + Reals/Coquelicot axioms; FITPACK's dx/dy evaluators and scipy's dct are contracts monitored numerically; interpolation error vs the analytic "
              "function is observed only.",
         technique="Coq proof (Coquelicot) on translated formulas + finite-difference oracle on the implementation", design="6/C18"),
+    "C03": dict(
+        text="Coq theorems over R about formulas REGENERATED from MeshRegion.geometry1 and tokamak.py: Brxy = psi_Z/R, Bzxy = -psi_R/R, |Bpxy|^2 = |grad psi|^2/R^2; the sign "
+             "decision (Bpxy = s*magnitude, s = +-1 with the sign of the sampled Bp.dy, equal to bpsign, geometry1 raises exactly on a contradiction); Btxy*R = f_spl(psi*f_psi_sign), "
+             "Bxy^2 = Bpxy^2+Btxy^2; for ANY list of legs (connected or disconnected) each leg's pressure closure evaluates the profile at psi outside its OWN separatrix and at the mirror "
+             "image inside the private region (uses how the source binds leg_psi: hand model of Python closure binding); the extrapolated profile is continuous at psi1D[-1] and continues "
+             "its gradient.  Oracles: real TokamakEquilibrium objects of 6-8 analytic families x both signs of psi x option variants (extrapolate_profiles, reverse_current, reverse_Bt, "
+             "psi_divide_twopi, all together): psi, fpol, pressure, every region's pressure closure across all separatrices, psi_axis, psi_bdry, Bt_axis; every point of every corpus grid "
+             "(incl. option, extrapolation, dct and regridded members) against an independently rebuilt interpolant; sign of Bpxy vs Bp.dy at every cell.",
+        note="Trusted: Coq kernel + Reals axioms; FITPACK interpolants (rebuilt independently from the inputs by the oracle); translator translate/geom1.py; the hand model of closure "
+             "binding.  The accuracy of the O-/X-point positions is C19's matter: scalars are compared within the bound implied by xpoint_refine_atol.",
+        technique="Coq proof on translated formulas + hand model of closure binding + independent-interpolant oracle on real equilibria and grids", design="6/C03"),
 }
 
 PENDING = ["C01", "C03", "C04", "C05", "C06", "C07", "C08", "C09", "C10", "C11", "C12", "C13", "C14", "C15", "C16", "C17", "C18", "C19", "C20"]
